@@ -3,15 +3,15 @@
 // reports success: try_push returns true for an item left outside the valid region.
 // Schedule (k = 2, 4 segments; one thread plays all roles, the "other threads" run at the hook point between the pusher's tail re-check and its
 // slot CAS - one legal interleaving): see the comments in main.
-// Needs the guarded replay hooks (units/kbq/hooks.diff):  XENIUM_VERIF_POINT("kirsch_bounded_kfifo_queue::try_push:before_slot_cas") and
-// xenium::verif::random_override.   build: g++ -std=c++17 -O1 -fno-access-control -DMPOETER_XENIUM_VERIF -I <hooked tree> native_f12.cpp -pthread
+// Uses the guarded replay hooks of the repository: XENIUM_VERIF_POINT("kirsch_bounded_kfifo_queue.try_push.before_slot_cas") and
+// xenium::utils::verif_random_hook.   build: g++ -std=c++17 -O1 -fno-access-control -DMPOETER_XENIUM_VERIF -I <hooked tree> native_f12.cpp -pthread
 // exit 0 = property holds on this schedule, 1 = violated, 2 = hooks missing
 #define MPOETER_XENIUM_VERIF 1
 #include <xenium/kirsch_bounded_kfifo_queue.hpp>
 #include <cstdio>
 #include <cstring>
 #ifndef XENIUM_VERIF_POINT
-int main() { printf("this tree has no XENIUM_VERIF_POINT hooks (apply units/kbq/hooks.diff)\n"); return 2; }
+int main() { printf("this tree has no XENIUM_VERIF_POINT hooks (needs the MPOETER_XENIUM_VERIF hooks of the repository)\n"); return 2; }
 #else
 using Q = xenium::kirsch_bounded_kfifo_queue<int*>;
 static int v[64]; static Q* q; static std::uint64_t R; static int stage = 0;
@@ -22,13 +22,13 @@ static void others() {      // three push/pop pairs of other threads: head 0 -> 
   for (int id : {2, 3, 4}) { bool ok = q->try_push(&v[id]); bool ok2 = q->try_pop(r); printf("  other threads: push %d -> %d, pop -> %d\n", id, ok, ok2 ? *r : -1); show("  "); }
 }
 static void hook(const char* id) {
-  if (stage == 1 && !strcmp(id, "kirsch_bounded_kfifo_queue::try_push:before_slot_cas")) { stage = 2; others(); }
+  if (stage == 1 && !strcmp(id, "kirsch_bounded_kfifo_queue.try_push.before_slot_cas")) { stage = 2; others(); }
 }
 int main() {
   setvbuf(stdout, nullptr, _IONBF, 0);
   for (int i = 0; i < 64; i++) v[i] = i;
   Q queue(2, 4); q = &queue; int* r; int bad = 0;
-  xenium::verif::random_override = rnd; xenium::verif::point_hook = hook;
+  xenium::utils::verif_random_hook = rnd; ::xenium_verif_point_hook = hook;
   R = 1; (void)q->try_push(&v[1]); (void)q->try_pop(r); show("after push 1 / pop");             // head = 0, tail = 2
   stage = 1; R = 0;
   bool ok = q->try_push(&v[10]);                                                             // X: finds slot 2 (tail segment), is paused, others run, then CAS + committed
